@@ -163,7 +163,11 @@ func (s *mapStorer) SetStringValue(name string, v string) {
 }
 func (s *mapStorer) Clear() { s.m = map[string]variable.Value{} }
 
-func newHostRunner(c *sexp.S) (*hostRunner, error) {
+func newHostRunner(c *sexp.S) (*hostRunner, error) { return newHostRunnerAlt(c, false) }
+
+// newHostRunnerAlt: with alt, the last of several readers holds another version of its file (every node in it greets with
+// ENTER instead of enter)
+func newHostRunnerAlt(c *sexp.S, alt bool) (*hostRunner, error) {
 	h := &hostRunner{storer: variable.NewInMemoryStorer()}
 	// every other case runs on a storer of the host's own
 	if id := c.List[2].Atom; len(id) > 0 && (id[len(id)-1]-'0')%2 == 1 {
@@ -175,8 +179,13 @@ func newHostRunner(c *sexp.S) (*hostRunner, error) {
 		}
 	}
 	var readers []*strings.Reader
-	for _, src := range c.Find("srcs").Args() {
-		readers = append(readers, strings.NewReader(src.GoString()))
+	srcList := c.Find("srcs").Args()
+	for i, src := range srcList {
+		text := src.GoString()
+		if alt && len(srcList) >= 2 && i == len(srcList)-1 {
+			text = strings.ReplaceAll(text, "enter ", "ENTER ")
+		}
+		readers = append(readers, strings.NewReader(text))
 	}
 	seed := "seed"
 	if s := c.Find("seed"); s != nil {
@@ -433,8 +442,8 @@ func Run(c *sexp.S, out *Out) {
 	for _, op := range c.Find("ops").Args() {
 		a := op.Args()
 		switch op.Head() {
-		case "new":
-			nh, err := newHostRunner(c)
+		case "new", "newalt":
+			nh, err := newHostRunnerAlt(c, op.Head() == "newalt")
 			if err != nil {
 				out.Put("NEWERR")
 				continue
